@@ -74,8 +74,23 @@ def check_selectors(rep, fl, rule="R02.1"):
         sels[m] = norm(b.call_args(lk[0][1])[0])
     key = V("key")
     want = ("index", norm(F(V("self"), "shards")), norm(("bin", "Rem", ("cast", "usize", key), ("const", n, "usize"))))
+    # the selectors are compared as functions of the key, on boundary values of every integer width and a spread of
+    # other keys (`key as u32 as usize % 256` picks the same shard as `key as usize % 256`; `(key >> 8) % 256` does
+    # not): every accessor must send a key to the shard the reference expression names, inside the array
+    samples = sorted({0, 1, 2, n - 1, n, n + 1, 2 * n - 1, (1 << 16) - 1, 1 << 16, (1 << 31) - 1, 1 << 31, (1 << 32) - 1, 1 << 32, (1 << 32) + n + 3, (1 << 63) - 1, 1 << 63, (1 << 64) - 1}
+                     | {(0x9E3779B97F4A7C15 * k_ + 0x7F4A7C15) & ((1 << 64) - 1) for k_ in range(1, 40)})
+    ref = [eval_expr(want[2], {key: k_}) for k_ in samples]
     for m, s in sorted(sels.items()):
-        rep.check(s == want, rule, fl, SM + "::" + m, "shard selector", "shards[(key as usize) %% %d]" % n,
+        b = facts.body(SM + "::" + m)
+        kv = V(b.local_name.get(2, "key"))
+        ok = s == want
+        if not ok and s[0] == "index" and norm(s[1]) == norm(F(V("self"), "shards")):
+            try:
+                got = [eval_expr(s[2], {kv: k_}) for k_ in samples]
+                ok = got == ref
+            except CannotEval:
+                ok = False
+        rep.check(ok, rule, fl, SM + "::" + m, "shard selector", "shards[(key as usize) %% %d]" % n,
                   "%s selects shard %s; the other accessors use shards[(key as usize) %% %d]: the same key is looked up in a different shard than it is stored in" % (m, show(s), n))
     # the array length in the type equals NUM_OF_SHARDS
     adt = facts.adts.get(SM)
